@@ -1,8 +1,269 @@
-"""C04 — substitution and dependent variables (DESIGN §5 C04)."""
+"""C04 — substitution and dependent variables (DESIGN §5 C04).
+
+Written against the normal form (`VIEW = 'norm'`): an extracted helper is seen where it is called, an
+iterator pipeline with closures is the `next` loop a `for` lowers to.  On top of that the rules are
+formulated on *routes* and *roles*, not on the number or order of syntactic items:
+
+  C04.instance  for each of the four holders of functions (objective, constraints[].function,
+                removed_constraints[].constraint.function, decision_variable_dependency values) there is a
+                call `Function::substitute(r, map)` whose receiver `r` is reached from `self` along exactly
+                that access path (followed through reborrows, destructuring of self, `as_mut`, `if let`,
+                `for` loops, `Option::iter_mut`, `chain`, projection-only `filter_map`s …); `map` is the
+                parameter; the error propagates; the result is stored through `r`; no element of the holder
+                can be skipped on a path to an Ok-exit; the replacement map is recorded in the dependency
+                map on every Ok path, after the existing dependencies were rewritten; nothing else is written.
+  C04.function  one pass over the terms of *self* (simultaneous substitution): the sum accumulator starts
+                from zero, gets `+ product` for every term and is returned; the product starts from
+                `Function::from(coefficient)` and is multiplied, for every id of the term, by the
+                replacement found for *that id* in the *parameter map* or else by `x_id`
+                (`single_term(id, 1.0)`); an Ok-exit that bypasses the pass is only allowed for the empty map.
+  C04.deps      work-list fixed point: the work list starts from every dependency; each taken entry is
+                evaluated at the state being completed; Ok => state[id of the same entry] = value;
+                Err => the same entry is kept as pending; Ok is only returned when nothing is pending; a
+                round without progress is an error (comparison of the pending size with the size of the
+                round's work list, on every retry path); pending entries become the next work list.
+  C04.use       Instance::evaluate / evaluate_samples run eval_dependencies on the dependency map with the
+                error propagated and before omitted variables are filled with defaults.
+"""
 from .common import *
+from ..facts import Facts
+from .. import normalize as NZ
+from .. import dataflow as DF
+
+VIEW = 'norm'
 
 INST = 'v1::Instance'
 SUBST = r'impl v1::Function>::substitute$'
+
+# ------------------------------------------------------------------------------------------------ tables
+# unary calls crossed on the way from `self.<holder>` to the `&mut Function` handed to substitute that
+# neither drop nor duplicate an element that holds a function (first argument = what they are applied to)
+TRAVERSE = {
+    'as_mut': 'Option<T> -> Option<&mut T>: same payload',
+    'as_ref': 'Option<T> -> Option<&T>',
+    'as_deref_mut': 'Option<Box<T>> -> Option<&mut T>',
+    'as_deref': 'Option<Box<T>> -> Option<&T>',
+    'deref': 'Vec -> slice, Box -> T', 'deref_mut': 'Vec -> slice, Box -> T',
+    'borrow': 'Borrow', 'borrow_mut': 'BorrowMut', 'as_slice': 'Vec::as_slice', 'as_mut_slice': 'Vec::as_mut_slice',
+    'iter': 'every element once', 'iter_mut': 'every element once (slice, Vec, HashMap, Option)',
+    'values': 'every value of a map once', 'values_mut': 'every value of a map once',
+    'into_iter': 'IntoIterator of a collection / reference to it: every element once; identity on iterators',
+    'by_ref': 'Iterator::by_ref', 'rev': 'order only', 'fuse': 'Iterator::fuse', 'peekable': 'Iterator::peekable',
+    'enumerate': 'adds an index', 'flatten': 'over Option items: drops exactly the `None`s (nothing to rewrite)',
+}
+# binary: both operands are traversed completely
+TRAVERSE_BOTH = {'chain': 'a.chain(b): all of a, then all of b'}
+# adaptors with a closure: transparent iff the closure only projects its argument (fields, as_mut, …, no branch):
+# then `filter_map(|c| c.function.as_mut())` drops exactly the elements whose Option on the path is None ≡ `if let Some(f) = c.function.as_mut()`
+CLOSURE_PROJECTING = {'filter_map': 'keeps the Some payloads', 'map': 'one to one', 'flat_map': 'all items of the projected Option/collection'}
+# projections that are not part of the message schema
+def _schema_field(adt):
+    return not (adt == 'tuple' or adt.endswith('Option::Some') or adt.endswith('ControlFlow::Continue') or adt.endswith('Result::Ok'))
+
+HOLDERS = {
+    'objective': [(INST, 'objective')],
+    'constraints': [(INST, 'constraints'), ('v1::Constraint', 'function')],
+    'removed_constraints': [(INST, 'removed_constraints'), ('v1::RemovedConstraint', 'constraint'), ('v1::Constraint', 'function')],
+    'decision_variable_dependency': [(INST, 'decision_variable_dependency')],
+}
+
+
+# ------------------------------------------------------------------------------------------------ generic helpers
+def _whole_defs(b, l):
+    return [d for d in b.defs_of(l) if not (d[0] == 'stmt' and d[2]['dst']['p'])]
+
+
+def _call_at(b, bi):
+    for c in b.calls:
+        if c.bb == bi: return c
+    return None
+
+
+def _adt_is(a, want):
+    return a == want or a.endswith('::' + want)
+
+
+def _path_is(fields, want):
+    fs = [(a, f) for a, f in fields if _schema_field(a)]
+    return len(fs) == len(want) and all(f == wf and _adt_is(a, wa) for (a, f), (wa, wf) in zip(fs, want))
+
+
+def _option_tests(b, l, prefix):
+    """`match`/`if let` on the Option at place l.prefix: list of (switch_bb, some_target, none_target)"""
+    out = []
+    for kind, bi, st in b.uses.get(l, ()):
+        if kind == 'stmt' and st['rv']['k'] == 'discr' and st['rv']['pl']['l'] == l and st['rv']['pl']['p'] == prefix:
+            for k3, b3, sw in b.uses.get(st['dst']['l'], ()):
+                if k3 == 'switch':
+                    m = {v: t for v, t in sw['ts']}
+                    out.append((b3, m.get(1, sw['else']), m.get(0, sw['else'])))
+    return out
+
+
+class Route:
+    """one way a reference is derived from a parameter: schema fields crossed (outermost first), loops whose
+    item it comes from (outermost first), None-targets of the Option tests crossed, calls crossed"""
+    def __init__(self, root=None, unknown=None):
+        self.root = root; self.fields = []; self.loops = []; self.none_bbs = set(); self.calls = []; self.unknown = list(unknown or [])
+
+    def ok(self): return not self.unknown and self.root is not None
+
+    def __repr__(self):
+        return 'Route(root=%s %s loops=%s calls=%s none=%s unknown=%s)' % (self.root, '.'.join(f for a, f in self.fields if _schema_field(a)), [lo[1] for lo in self.loops], self.calls, sorted(self.none_bbs), self.unknown)
+
+
+def trace_operand(F, b, op, depth=0):
+    if op['k'] not in ('copy', 'move'): return [Route(unknown=['not a place'])]
+    return trace_place(F, b, op['pl'], depth)
+
+
+def trace_place(F, b, pl, depth=0):
+    l = pl['l']
+    routes = trace_local(F, b, l, depth)
+    fs = fields_of_place(pl)
+    none = set()
+    d = _whole_defs(b, l)
+    from_next = len(d) == 1 and d[0][0] == 'call' and (d[0][2].get('ri') or {}).get('item') == 'next'
+    for i, p in enumerate(pl['p']):
+        if isinstance(p, dict) and p.get('dc') == 'Some' and not (from_next and i == 0):
+            # payload of an Option read after a test: the None side has nothing to rewrite
+            for sb, some, nn in _option_tests(b, l, pl['p'][:i]): none.add(nn)
+    for r in routes:
+        r.fields = r.fields + fs; r.none_bbs |= none
+    return routes
+
+
+def _closure_projection(F, b, op):
+    """Route inside the closure given by operand `op` from its returned value back to its argument, if the
+    closure does nothing but project (no branch, no loop, only TRAVERSE calls); else None"""
+    if op['k'] not in ('copy', 'move') or op['pl']['p']: return None
+    l = op['pl']['l']
+    for _ in range(6):
+        d = _whole_defs(b, l)
+        if len(d) != 1 or d[0][0] != 'stmt': return None
+        rv = d[0][2]['rv']
+        if rv['k'] == 'use' and rv['ops'][0]['k'] in ('copy', 'move') and not rv['ops'][0]['pl']['p']: l = rv['ops'][0]['pl']['l']; continue
+        break
+    if rv['k'] != 'agg' or not rv['adt'].startswith('closure:'): return None
+    cb = F.bodies.get(rv['adt'][8:])
+    if cb is None: return None
+    if any(cb.blocks[bi]['term']['k'] == 'switch' for bi in cb.live): return None
+    rs = trace_local(F, cb, 0, 0)
+    if len(rs) != 1 or not rs[0].ok() or rs[0].root != 2 or rs[0].loops: return None
+    return rs[0]
+
+
+def trace_local(F, b, l, depth=0):
+    if depth > 60: return [Route(unknown=['derivation too deep'])]
+    if 1 <= l <= b.argc: return [Route(root=l)]
+    defs = _whole_defs(b, l)
+    if len(defs) != 1: return [Route(unknown=['_%d has %d definitions' % (l, len(defs))])]
+    k, bi, d = defs[0]
+    if k == 'stmt':
+        rv = d['rv']
+        if rv['k'] == 'use' and rv['ops'][0]['k'] in ('copy', 'move'): return trace_place(F, b, rv['ops'][0]['pl'], depth + 1)
+        if rv['k'] == 'ref': return trace_place(F, b, rv['pl'], depth + 1)
+        return [Route(unknown=['_%d is computed (%s)' % (l, rv['k'])])]
+    c = _call_at(b, bi)
+    item = c.item; tr = c.trait or ''
+    if not c.args: return [Route(unknown=['call ' + item])]
+    if item == 'next' and tr.endswith('Iterator'):
+        lo = T.loop_of_next(b, c)
+        rs = trace_operand(F, b, c.args[0], depth + 1)
+        for r in rs:
+            if lo: r.loops.append((c,) + lo)
+            else: r.unknown.append('next() outside a loop')
+        return rs
+    if item in TRAVERSE_BOTH and tr.endswith('Iterator') and len(c.args) == 2:
+        rs = trace_operand(F, b, c.args[0], depth + 1) + trace_operand(F, b, c.args[1], depth + 1)
+        for r in rs: r.calls.append(item)
+        return rs
+    if item in CLOSURE_PROJECTING and tr.endswith('Iterator') and len(c.args) == 2:
+        rs = trace_operand(F, b, c.args[0], depth + 1)
+        pr = _closure_projection(F, b, c.args[1])
+        for r in rs:
+            if pr is None: r.calls.append(item); r.unknown.append('%s with a closure that is not a pure projection' % item)
+            else: r.fields = r.fields + pr.fields; r.calls += pr.calls + [item + '(projection)']
+        return rs
+    if item in TRAVERSE:
+        rs = trace_operand(F, b, c.args[0], depth + 1)
+        for r in rs: r.calls.append(item)
+        return rs
+    rs = [Route(unknown=['call %s' % item])]
+    rs[0].calls.append(item)
+    return rs
+
+
+def _ok_exits(b):
+    return b.strict_ok_exits()
+
+
+def _errflow(b, local, depth=0):
+    """T.errflow, plus: the `?` inside an inlined helper turns the error into the helper's own Result (a local, not _0);
+    what matters then is how the caller consumes *that* value (`helper(..)?`, `return helper(..)`)"""
+    res = T.errflow(b, local)
+    if depth > 4 or not any(k == 'bad' and 'Break arm' in h for k, h in res): return res
+    arms = T.try_arms(b, local)
+    if not arms: return res
+    x = arms[1]; fr = None
+    for _ in range(8):
+        c = _call_at(b, x)
+        if c is not None and 'from_residual' in c.name: fr = c; break
+        s = [y for y in b.succ(x) if not b.blocks[y]['cleanup']]
+        if len(s) != 1: break
+        x = s[0]
+    if fr is None or fr.dst['p'] or fr.dst['l'] == 0 or fr.target < 0: return res
+    d = fr.dst['l']
+    consumers = {bi for kind, bi, u in b.uses.get(d, ()) if kind == 'call' and T.TRY_BRANCH.search(u.name)}
+    consumers |= {bi for kind, bi, u in b.uses.get(d, ()) if kind == 'stmt' and u['dst'] == {'l': 0, 'p': []} and u['rv']['k'] == 'use'}
+    if not consumers or not T.must_pass(b, fr.target, set(b.return_blocks()), consumers): return res
+    sub = _errflow(b, d, depth + 1)
+    return [(k, h) for k, h in res if not (k == 'bad' and 'Break arm' in h)] + [(k, '? of an inlined helper -> ' + h) for k, h in sub]
+
+
+def _errflow_calls(ctx, rule, b, calls, what):
+    for c in calls:
+        res = _errflow(b, c.dst['l'])
+        ctx.counters['cfg_paths'] += 1
+        bad = [h for k, h in res if k == 'bad']
+        ctx.check(not bad, rule, 'T-ERRFLOW', b.name, '%s: %s' % (what, '; '.join(sorted(set(bad)))), b.site(c.bb), consumers=[h for k, h in res])
+
+
+# ------------------------------------------------------------------------------------------------ C04.instance
+def _written_back(ctx, b, c):
+    """the Continue/Ok payload of call c's result is stored through the reference the receiver was read from:
+       `*f = f.substitute(..)?`  ≡  `let g = f.substitute(..)?; *f = g`  ≡  `*f = match f.substitute(..) { Ok(g) => g, Err(e) => return Err(e) }`"""
+    rf, rroot, _ = T.access_path(b, c.args[0], transparent=T.TRANSPARENT_NOCLONE)
+    rf = [x for x in rf if _schema_field(x[0])]
+    hits = []
+    for bi, st in b.stmts():
+        d = st['dst']
+        if not d['p'] or d['p'][0] != '*' or st['rv']['k'] != 'use': continue
+        s = ctx.S.slice_operand(b, st['rv']['ops'][0])
+        if c not in s.call_objs: continue
+        wf, wroot, _ = T.access_path(b, {'k': 'copy', 'pl': d}, transparent=T.TRANSPARENT_NOCLONE)
+        wf = [x for x in wf if _schema_field(x[0])]
+        if wroot == rroot and wf == rf: hits.append(bi)
+    return hits
+
+
+def _route_checks(ctx, b, c, r):
+    """(every-item, all-items, dominates) for substitute call c reached along route r"""
+    oks = _ok_exits(b)
+    via = {c.bb} | r.none_bbs
+    every = True; dom = True
+    if not r.loops:
+        every = T.must_pass(b, 0, oks, via)
+    else:
+        inner_hdr = None
+        for lo in reversed(r.loops):            # innermost first
+            v = set(via) if inner_hdr is None else (r.none_bbs | {inner_hdr})
+            if not T.must_pass(b, lo[2], {lo[1]}, v): every = False
+            inner_hdr = lo[1]
+        outer = r.loops[0]
+        dom = T.must_pass(b, 0, oks, {outer[1]} | {nn for nn in r.none_bbs if nn not in outer[4]})
+    restr = [x for x in r.calls if x.split('(')[0] in RESTRICTING and not x.endswith('(projection)')]
+    return every, restr, dom
 
 
 def instance_rules(ctx):
@@ -11,249 +272,618 @@ def instance_rules(ctx):
     if b is None: return
     cover(ctx, R + '/cover', b, INST, exempt=('description', 'sense', 'parameters', 'constraint_hints', 'decision_variables'))
     subs = [c for c in b.calls if c.item == 'substitute' and re.search(SUBST, c.path)]
-    want = {'objective': [(INST, 'objective')], 'constraints': [(INST, 'constraints'), ('v1::Constraint', 'function')],
-            'removed_constraints': [(INST, 'removed_constraints'), ('v1::RemovedConstraint', 'constraint'), ('v1::Constraint', 'function')],
-            'decision_variable_dependency': [(INST, 'decision_variable_dependency')]}
+    routes = {id(c): trace_operand(ctx.F, b, c.args[0]) for c in subs}
+    loops = T.for_loops(b)
     found = {}
-    for c in subs:
-        s = ctx.S.slice_operand(b, c.args[0])
-        cands = [f for f, need in want.items() if all(s.has_field(a, x) for a, x in need)]
-        # most specific match (removed_constraints also has Constraint.function)
-        cands.sort(key=lambda f: -len(want[f]))
-        if cands and cands[0] not in found: found[cands[0]] = c
-    for f in want:
-        c = found.get(f)
-        ctx.check(c is not None, R + '/rewrite/' + f, 'T-MUSTCALL', b.name, 'functions held by self.%s are not substituted' % f, b.site())
-        if c is None: continue
+    for f, want in HOLDERS.items():
+        # ---- precise: a substitute call whose receiver is reached from self exactly along the holder's path
+        cands = [(c, r) for c in subs for r in routes[id(c)] if r.ok() and r.root == 1 and _path_is(r.fields, want)]
+        best = None
+        for c, r in cands:
+            every, restr, dom = _route_checks(ctx, b, c, r)
+            res = dict(map=T.access_path(b, c.args[1])[1] == 2, wb=len(_written_back(ctx, b, c)) >= 1, every=every, restr=restr, dom=dom)
+            score = sum(1 for k, v in res.items() if (not v if k == 'restr' else v))
+            if best is None or score > best[0]: best = (score, c, r, res)
+        if best is not None:
+            _, c, r, res = best
+            found[f] = (c, r)
+            ctx.ok(R + '/rewrite/' + f, 'T-MUSTCALL', b.site(c.bb), route=repr(r))
+            ctx.check(res['map'], R + '/rewrite/%s/map' % f, 'T-CARRY', b.name, 'not substituted with the given replacement map', b.site(c.bb))
+            _errflow_calls(ctx, R + '/rewrite/%s/error' % f, b, [c], 'Function::substitute')
+            ctx.check(res['wb'], R + '/rewrite/%s/written-back' % f, 'T-CARRY', b.name, 'the substituted function is not written back to where it was read', b.site(c.bb))
+            ctx.check(res['every'], R + '/rewrite/%s/every-item' % f, 'T-LOOPMUST', b.name, 'an element of self.%s can be skipped (a path avoids the substitution without passing a `None` test of the holder)' % f, b.site(c.bb))
+            ctx.check(not res['restr'], R + '/rewrite/%s/all-items' % f, 'T-LOOPMUST', b.name, 'iterator restricted by %s' % res['restr'], b.site(c.bb))
+            ctx.check(res['dom'], R + '/rewrite/%s/dominates' % f, 'T-MUSTCALL', b.name, 'an Ok-exit is reachable without visiting self.%s' % f, b.site(c.bb))
+            continue
+        # ---- the receiver's derivation is not recognised step by step: weaker, slice based condition (undecided for the precise one)
+        weak = [c for c in subs if all(ctx.S.slice_operand(b, c.args[0]).has_field(a, x) for a, x in want)]
+        if not weak:
+            ctx.bad(R + '/rewrite/' + f, 'T-MUSTCALL', b.name, 'functions held by self.%s are not substituted' % f, b.site()); continue
+        c = weak[0]
+        why = '; '.join(sorted({u for r in routes[id(c)] for u in r.unknown})) or 'no route along %s' % [x for _, x in want]
+        ctx.undecided(R + '/rewrite/' + f, 'T-MUSTCALL', b.site(c.bb), 'receiver derivation not recognised: ' + why)
+        ctx.ok(R + '/rewrite/%s~slice' % f, 'T-MUSTCALL', b.site(c.bb))
         ctx.check(T.access_path(b, c.args[1])[1] == 2, R + '/rewrite/%s/map' % f, 'T-CARRY', b.name, 'not substituted with the given replacement map', b.site(c.bb))
-        errflow_calls(ctx, R + '/rewrite/%s/error' % f, b, [c], 'Function::substitute')
-        # result written back into the place it was read from
-        recv_root = T.access_path(b, c.args[0], transparent=T.TRANSPARENT_NOCLONE)[1]
-        ws = []
-        for bi, st in b.stmts():
-            if st['dst']['p'] == ['*'] and st['rv']['k'] == 'use':
-                s = ctx.S.slice_operand(b, st['rv']['ops'][0])
-                if c in s.call_objs and T.access_path(b, {'k': 'copy', 'pl': {'l': st['dst']['l'], 'p': []}}, transparent=T.TRANSPARENT_NOCLONE)[1] == recv_root:
-                    ws.append(bi)
-        ctx.check(len(ws) == 1, R + '/rewrite/%s/written-back' % f, 'T-CARRY', b.name, 'the substituted function is not written back to where it was read', b.site(c.bb))
-        if f == 'objective':
-            must_pass_or_none(ctx, R + '/rewrite/objective/every-path', b, c, INST, 'objective', 'substituting the objective')
+        _errflow_calls(ctx, R + '/rewrite/%s/error' % f, b, [c], 'Function::substitute')
+        ctx.check(len(_written_back(ctx, b, c)) >= 1, R + '/rewrite/%s/written-back' % f, 'T-CARRY', b.name, 'the substituted function is not written back to where it was read', b.site(c.bb))
+        ls = [lo for lo in loops if c.bb in lo[4]]
+        nones = set()
+        for adt, fld in (('v1::Constraint', 'function'), ('v1::RemovedConstraint', 'constraint'), (INST, 'objective')):
+            for sb, sm, nn in option_field_tests(b, adt, fld): nones.add(nn)
+        for x in b.calls:
+            if x.item == 'as_mut' and 'Option::<v1::Function>' in x.name:
+                for sb2, m2, els2 in T.option_arms(b, x.dst['l']): nones.add(m2.get(0, els2))
+        if not ls:
+            ctx.check(T.must_pass(b, 0, _ok_exits(b), {c.bb} | nones), R + '/rewrite/%s/every-item~slice' % f, 'T-LOOPMUST', b.name, 'an Ok-exit is reachable without substituting self.%s' % f, b.site(c.bb))
+            ctx.ok(R + '/rewrite/%s/all-items~slice' % f, 'T-LOOPMUST', b.site(c.bb)); ctx.ok(R + '/rewrite/%s/dominates~slice' % f, 'T-MUSTCALL', b.site(c.bb))
         else:
-            ls = [lo for lo in T.for_loops(b) if c.bb in lo[4]]
-            ctx.check(len(ls) == 1, R + '/rewrite/%s/loop' % f, 'T-LOOPMUST', b.name, 'not inside one loop over self.%s' % f, b.site(c.bb))
-            for lo in ls:
-                via = {c.bb}
-                # a constraint without function (None) has nothing to rewrite
-                for adt, fld in (('v1::Constraint', 'function'), ('v1::RemovedConstraint', 'constraint')):
-                    for sb, sm, nn in option_field_tests(b, adt, fld):
-                        if sb in lo[4]: via.add(nn)
-                for x in b.calls:
-                    if x.bb in lo[4] and x.item == 'as_mut' and 'Option::<v1::Function>' in x.name:
-                        for sb2, m2, els2 in T.option_arms(b, x.dst['l']): via.add(m2.get(0, els2))
-                ctx.check(T.must_pass(b, lo[2], {lo[1]}, via), R + '/rewrite/%s/every-item' % f, 'T-LOOPMUST', b.name, 'an element can be skipped', b.site(c.bb))
-                si = ctx.S.slice_operand(b, lo[0].args[0])
-                restr = sorted({x.item for x in si.call_objs if x.item in RESTRICTING and 'Iterator' in (x.trait or '')})
-                ctx.check(not restr, R + '/rewrite/%s/all-items' % f, 'T-LOOPMUST', b.name, 'iterator restricted by %s' % restr, b.site(c.bb))
-                ctx.check(all(b.dominates(lo[1], e) for e in b.strict_ok_exits()), R + '/rewrite/%s/dominates' % f, 'T-MUSTCALL', b.name, 'loop does not dominate the Ok-exit', b.site(c.bb))
-    # the replacement map is recorded
-    ext = [c for c in b.calls if c.item == 'extend' and 'HashMap<u64, v1::Function>' in c.name]
-    ok = False
-    for c in ext:
-        if (INST, 'decision_variable_dependency') in T.access_path(b, c.args[0])[0] and T.access_path(b, c.args[1])[1] == 2 and all(b.dominates(c.bb, e) for e in b.strict_ok_exits()): ok = True
-    ctx.check(ok, R + '/record-map', 'T-MUSTCALL', b.name, 'decision_variable_dependency.extend(replacement) is not on every success path', b.site())
-    if ext and 'decision_variable_dependency' in found:
-        # existing dependencies are rewritten before the new ones are added (new ones are not substituted into themselves)
-        lo = [l for l in T.for_loops(b) if found['decision_variable_dependency'].bb in l[4]]
-        if lo: ctx.check(b.dominates(lo[0][1], ext[0].bb) and ext[0].bb not in lo[0][4], R + '/record-after-rewrite', 'T-BRANCHFX', b.name, 'the map is recorded before existing dependencies are rewritten', b.site(ext[0].bb))
+            ctx.check(all(T.must_pass(b, lo[2], {lo[1]}, {c.bb} | nones | {l2[1] for l2 in ls if set(l2[4]) < set(lo[4])}) for lo in ls), R + '/rewrite/%s/every-item~slice' % f, 'T-LOOPMUST', b.name, 'an element can be skipped', b.site(c.bb))
+            restr = sorted({x.item for lo in ls for x in ctx.S.slice_operand(b, lo[0].args[0]).call_objs if x.item in RESTRICTING and 'Iterator' in (x.trait or '')})
+            ctx.check(not restr, R + '/rewrite/%s/all-items~slice' % f, 'T-LOOPMUST', b.name, 'iterator restricted by %s' % restr, b.site(c.bb))
+            outer = max(ls, key=lambda lo: len(lo[4]))
+            ctx.check(all(b.dominates(outer[1], e) for e in _ok_exits(b)), R + '/rewrite/%s/dominates~slice' % f, 'T-MUSTCALL', b.name, 'loop does not dominate the Ok-exit', b.site(c.bb))
+        for u in ('every-item', 'all-items', 'dominates'):
+            ctx.undecided(R + '/rewrite/%s/%s' % (f, u), 'T-LOOPMUST', b.site(c.bb), 'receiver derivation not recognised')
+        found[f] = (c, None)
+    # ---- the replacement map is recorded:  dvd.extend(replacement)  ≡  for (k, v) in replacement { dvd.insert(k, v) }
+    oks = _ok_exits(b)
+    rec = []          # (bb that must be passed, first bb of the recording, blocks of the recording)
+    for c in b.calls:
+        if c.item == 'extend' and len(c.args) == 2 and T.access_path(b, c.args[1])[1] == 2:
+            rs = trace_operand(ctx.F, b, c.args[0])
+            if any(r.ok() and r.root == 1 and _path_is(r.fields, HOLDERS['decision_variable_dependency']) for r in rs): rec.append((c.bb, c.bb, {c.bb}))
+    for lo in loops:
+        rs = trace_operand(ctx.F, b, lo[0].args[0])
+        if not any(r.ok() and r.root == 2 and not [x for x in r.fields if _schema_field(x[0])] and not [x for x in r.calls if x in RESTRICTING] for r in rs): continue
+        ins = [c for c in b.calls if c.bb in lo[4] and c.item == 'insert' and 'HashMap' in c.name and len(c.args) == 3
+               and any(r.ok() and r.root == 1 and _path_is(r.fields, HOLDERS['decision_variable_dependency']) for r in trace_operand(ctx.F, b, c.args[0]))
+               and all(lo[0].dst['l'] in ctx.S.slice_operand(b, a).locals for a in c.args[1:])]
+        if ins and T.must_pass(b, lo[2], {lo[1]}, {c.bb for c in ins}): rec.append((lo[1], lo[1], set(lo[4])))
+    good = [x for x in rec if T.must_pass(b, 0, oks, {x[0]})]
+    ctx.check(bool(good), R + '/record-map', 'T-MUSTCALL', b.name, 'the replacement map is not added to decision_variable_dependency on every success path', b.site())
+    if rec and found.get('decision_variable_dependency'):
+        # existing dependencies are rewritten before the new ones are added (the new ones are not substituted into themselves)
+        c, r = found['decision_variable_dependency']
+        x = (good or rec)[0]
+        los = r.loops if r is not None else [lo for lo in loops if c.bb in lo[4]]
+        if los:
+            outer = max(los, key=lambda lo: len(lo[4]))
+            ok = not (x[2] & set(outer[4])) and T.must_pass(b, 0, {x[1]}, {outer[1]}) and not (b.reach([x[1]]) & {outer[1]})
+        else:
+            ok = T.must_pass(b, 0, {x[1]}, {c.bb}) and c.bb not in b.reach([x[1]])
+        ctx.check(ok, R + '/record-after-rewrite', 'T-BRANCHFX', b.name, 'the map is recorded before existing dependencies are rewritten', b.site(x[1]))
     writes_only(ctx, R + '/only', b, {'objective', 'constraints', 'removed_constraints', 'decision_variable_dependency'})
+
+
+# ------------------------------------------------------------------------------------------------ C04.function
+# `it.sum::<T>()` / `it.product::<T>()` for a crate type T is `<T as Sum>::sum(it)`, which the crate writes as a fold.  The shared
+# normal form only desugars sums of primitives (engine wish, see refactors/C04-NOTES.txt); until it does, this module builds a private
+# normal form of the one function it needs in which such a call is replaced by the crate's impl *before* loops are desugared, so that
+# `terms.map(f).sum()` is the same explicit loop as `let mut out = zero; for t in terms { out = out + f(t) }`.
+FOLD_TRAITS = {'sum': 'std::iter::Sum', 'product': 'std::iter::Product'}
+
+
+class _FoldNormalizer(NZ.Normalizer):
+    def __init__(self, raw, known, impls):
+        self.impls = impls                                   # (item, type) -> def path of `<T as Sum>::sum`
+        names = set(impls.values())
+        super().__init__(raw, (known or set()) - names, True)
+        self.pre = NZ.Normalizer(raw, (known or set()) - names, False)
+
+    def body(self, name):
+        if name in self.impls.values(): return self.pre.body(name)       # spliced with its fold still a call: the caller's adaptor chain is below it
+        return super().body(name)
+
+    def _normalize(self, d):
+        hit = [bi for bi, blk in enumerate(d['blocks']) if self._impl_of(blk['term']) is not None]
+        if hit:
+            import copy
+            d = copy.deepcopy(d)
+            for bi in hit:
+                t = d['blocks'][bi]['term']; nm = self._impl_of(t)
+                ty = (t.get('ga') or ['?'])[-1]
+                t['f'] = t['r'] = t['fp'] = t['rp'] = nm
+                t['ri'] = {'trait': FOLD_TRAITS[t['ri']['item']], 'targs': [ty], 'self': ty, 'item': t['ri']['item']}
+        return super()._normalize(d)
+
+    def _impl_of(self, t):
+        if t['k'] != 'call' or t.get('synthetic'): return None
+        ri = t.get('ri') or {}
+        if ri.get('trait') != 'std::iter::Iterator' or ri.get('item') not in FOLD_TRAITS or len(t['args']) != 1 or not t.get('ga'): return None
+        return self.impls.get((ri['item'], t['ga'][-1]))
+
+
+def _fold_view(ctx, b):
+    """(facts, slicer, body) to read function `b` in: the shared normal form, or the private one described above"""
+    raw = getattr(ctx.F, 'raw', None)
+    if raw is None: return ctx.F, ctx.S, b
+    impls = {}
+    for (tr, st, it), bs in raw._by_hdr.items():
+        if it in FOLD_TRAITS and tr == FOLD_TRAITS[it] and st and len(bs) == 1: impls[(it, st)] = bs[0].name
+    need = False
+    for c in b.calls:
+        if (c.trait or '') == 'std::iter::Iterator' and c.item in FOLD_TRAITS and c.gargs and (c.item, c.gargs[-1]) in impls and not c.term.get('synthetic'): need = True
+    if not need: return ctx.F, ctx.S, b
+    import os
+    known = NZ.load_known(os.path.join(os.path.dirname(__file__), 'tables', 'known_fns.json'))
+    N = _FoldNormalizer(raw, known, impls)
+    try:
+        d = N.body(b.name)
+    except Exception:
+        return ctx.F, ctx.S, b
+    dicts = [d if n == b.name else x.d for n, x in ctx.F.bodies.items()]
+    F2 = Facts(ctx.F.path, parts=(ctx.F.header, dicts, ctx.F.adts, ctx.F.impls, ctx.F.consts))
+    F2.raw = raw
+    return F2, DF.Slicer(F2, depth=ctx.S.depth), F2.bodies[b.name]
+
+
+# the additive identity the sum starts from
+def _is_zero_function(e0):
+    if e0[0] == 'call' and e0[1] == 'zero' and 'v1::Function' in e0[2]: return True                       # Function::zero()
+    if e0[0] == 'call' and e0[1] in ('from', 'into') and re.search(r'From<f64> for v1::Function|Into<v1::Function>', e0[2]) and e0[3] and e0[3][0][0] == 'const':
+        return T.f64_const(e0[3][0][1]) == 0.0                                                            # Function::from(0.0)  (what `impl Sum for Function` folds from)
+    return False
+
+
+FROM_F64 = r'From<f64> for v1::Function>::from$|<f64 as std::convert::Into<v1::Function>>::into$'      # Function::from(c) ≡ c.into()
+# how "is there a replacement for id" is asked:  item -> kind of answer
+PROBES = {
+    'get': 'option',              # match / if let on replacements.get(id): Some(r) = present
+    'contains_key': 'bool',       # if replacements.contains_key(id) { .. replacements[id] .. }
+}
+# how the replacement is read on the `present` side
+REPLACEMENT_READS = ('get', 'index')
+
+
+def _def_expr(b, k, bi, d):
+    if k == 'call':
+        c = _call_at(b, bi)
+        return ('call', c.item, c.name, [T.expr(b, a) for a in d['args']], bi)
+    return T._rv_expr(b, d['rv'])
+
+
+def _leaf_defs(b, l, keep, depth=0):
+    """expressions assigned to local `l` in the blocks `keep(bb)`; a value that comes through a temporary with several
+    definitions (`v = match .. { A => e1, B => e2 }`, `let t = if c { e1 } else { e2 }; v = t`) is expanded into e1, e2"""
+    out = []
+    for k, bi, d in _whole_defs(b, l):
+        if not keep(bi): continue
+        e = _def_expr(b, k, bi, d)
+        t = e[1] if e[0] == 'local' or (e[0] == 'place' and not e[2]) else None
+        if t is not None and t != l and t > b.argc and depth < 4 and len(_whole_defs(b, t)) > 1:
+            out += _leaf_defs(b, t, lambda x: True, depth + 1)
+        else:
+            out.append(e)
+    return out
+
+
+def _acc_root(b, op):
+    """the (possibly loop-carried, multiply defined) local an operand is a plain copy of"""
+    return T.access_path(b, op, transparent=T.TRANSPARENT_NOCLONE)[1] if op['k'] in ('copy', 'move') else None
+
+
+def _arm_values(b, op, arm_start, other_start, header, use_bb):
+    """expressions the operand `op` of the call in `use_bb` can hold when control came through `arm_start` (and not
+    `other_start`) of a test inside the loop with `header`; None if that cannot be told"""
+    e = T.expr(b, op)
+    if not (e[0] == 'local' or (e[0] == 'place' and not e[2])): return [e]
+    l = e[1]
+    defs = _whole_defs(b, l)
+    A = b.reach([arm_start], stop={header}) - b.reach([other_start], stop={header})
+    da = [(k, bi, d) for k, bi, d in defs if bi in A]
+    if not da or not T.must_pass(b, arm_start, {use_bb}, {bi for k, bi, d in da}): return None
+    return [_def_expr(b, k, bi, d) for k, bi, d in da]
 
 
 def function_rules(ctx):
     R = 'C04.function'
-    b = ctx.method(R + '/anchor', 'v1::Function', 'substitute')
-    if b is None: return
-    # empty map => clone
-    emp = [c for c in b.calls if c.item == 'is_empty' and 'HashMap' in c.name and T.access_path(b, c.args[0])[1] == 2]
-    okc = False
-    for c in emp:
-        for g in T.guards_from_call(b, c):
-            tr = T.reach_cp(b, [g.true_bb]) - T.reach_cp(b, [g.false_bb])
-            for e, k, st in b.ret_assignments():
-                if e in tr and k == 'ok':
-                    ex = T.expr(b, st['rv']['ops'][0])
-                    if ex[0] == 'call' and ex[1] == 'clone' and T.strip_wrappers(ex) == ('place', 1, []): okc = True
-    ctx.check(okc, R + '/empty-map-is-identity', 'T-BRANCHFX', b.name, 'an empty replacement map does not return a clone of self', b.site())
+    b0 = ctx.method(R + '/anchor', 'v1::Function', 'substitute')
+    if b0 is None: return
+    F, S, b = _fold_view(ctx, b0)
     loops = T.for_loops(b)
-    outer = [lo for lo in loops if ctx.S.slice_operand(b, lo[0].args[0]).has_call(r'IntoIterator for &v1::Function>::into_iter') and not any(set(lo[4]) < set(o[4]) for o in loops)]
-    ctx.check(len(outer) == 1, R + '/term-loop', 'T-LOOPMUST', b.name, 'expected one loop over the terms of self', b.site())
-    if len(outer) != 1: return
-    o = outer[0]
-    inner = [lo for lo in loops if set(lo[4]) < set(o[4])]
-    ctx.check(len(inner) == 1, R + '/id-loop', 'T-LOOPMUST', b.name, 'expected one loop over the ids of a term', b.site())
-    if len(inner) != 1: return
-    i = inner[0]
-    ctx.check(o[0].dst['l'] in ctx.S.slice_operand(b, i[0].args[0]).locals, R + '/id-loop/of-term', 'T-CARRY', b.name, 'inner loop does not iterate the ids of the current term', b.site(i[0].bb))
-    probes = [c for c in b.calls if c.bb in i[4] and c.item == 'get' and 'HashMap::<u64, v1::Function>::get' in c.name]
-    ctx.check(len(probes) == 1, R + '/probe', 'T-BRANCHFX', b.name, 'expected one replacements.get(id), found %d' % len(probes), b.site())
-    muls = [c for c in b.calls if c.bb in i[4] and c.item == 'mul' and (c.trait or '').endswith('ops::Mul')]
-    if len(probes) == 1:
-        p = probes[0]
-        ctx.check(T.access_path(b, p.args[0])[1] == 2 and i[0].dst['l'] in ctx.S.slice_operand(b, p.args[1]).locals, R + '/probe/key', 'T-CARRY', b.name, 'probe is not replacements.get(id of this term)', b.site(p.bb))
-        loop_must(ctx, R + '/probe/every-id', b, i, lambda c: c is p, 'replacements.get(id)')
-        arms = T.option_arms(b, p.dst['l'])
-        ok_some = ok_none = False
-        for sb, m, els in arms:
-            sr = b.reach([m.get(1, els)], stop={i[1]}) - b.reach([m.get(0, els)], stop={i[1]})
-            nr = b.reach([m.get(0, els)], stop={i[1]}) - b.reach([m.get(1, els)], stop={i[1]})
-            for c in muls:
-                a0 = T.expr(b, c.args[0]); a1 = T.expr(b, c.args[1], depth=12)
-                if c.bb in sr:
-                    # v * replacement.clone()
-                    if any(x[0] == 'call' and x[1] == 'get' and len(x) > 4 and x[4] == p.bb for x in T.expr_walk(a1)) and T.must_pass(b, m.get(1, els), {i[1]}, {c.bb}): ok_some = True
-                if c.bb in nr:
-                    st_ = [x for x in T.expr_walk(a1) if x[0] == 'call' and x[1] == 'single_term']
-                    if st_ and st_[0][3][1] == ('const', '1f64') and T.must_pass(b, m.get(0, els), {i[1]}, {c.bb}):
-                        kx = st_[0][3][0]
-                        if any(x[0] == 'call' and x[1] == 'next' and len(x) > 4 and x[4] == i[0].bb for x in T.expr_walk(kx)): ok_none = True
-        ctx.check(ok_some, R + '/case/replaced', 'T-BRANCHFX', b.name, 'a replaced id does not multiply the term by its replacement', b.site(p.bb))
-        ctx.check(ok_none, R + '/case/kept', 'T-BRANCHFX', b.name, 'an id without replacement does not multiply the term by x_id (single_term(id, 1.0))', b.site(p.bb))
-    # the running product `v`: starts from the coefficient, is the left operand and the destination of every Mul
-    vroots = set()
-    for c in muls:
-        vroots.add(T.access_path(b, c.args[0], transparent=T.TRANSPARENT_NOCLONE)[1])
-    v_init_ok = False
-    froms = [c for c in b.calls if c.bb in o[4] and c.bb not in i[4] and c.item == 'from' and re.search(r'From<f64> for v1::Function|From<f64>>::from', c.name)]
-    for c in froms:
-        if o[0].dst['l'] in ctx.S.slice_operand(b, c.args[0]).locals and [f for a, f in T.own_fields(T.expr(b, c.args[0])) if a == 'tuple'][-1:] == ['1']: v_init_ok = True
-    ctx.check(v_init_ok, R + '/product-starts-from-coefficient', 'T-CARRY', b.name, 'the factor product does not start from Function::from(coefficient)', b.site())
-    # out = out + v for every term; returned
+    oks = _ok_exits(b)
+
+    def route_of(op):
+        rs = trace_operand(F, b, op)
+        return rs[0] if len(rs) == 1 and rs[0].ok() else None
+
+    def tuple_fields(r):
+        return [f for a, f in r.fields if a == 'tuple']
+
+    # ---- one pass over the terms of self
+    term = []
+    for lo in loops:
+        r = route_of(lo[0].args[0])
+        if r is None or r.root != 1 or r.loops or [x for x in r.fields if _schema_field(x[0])]: continue
+        if not any(c.item == 'into_iter' and re.search(r'IntoIterator for &(\'\w+ )?v1::Function>::into_iter', c.name) for c in b.calls if c.dst['l'] in S.slice_operand(b, lo[0].args[0]).locals): continue
+        term.append((lo, r))
+    ctx.check(bool(term), R + '/term-loop', 'T-LOOPMUST', b.name, 'no loop over the terms of self itself (substitution must be simultaneous: one pass over the original terms)', b.site())
+    if not term: return
+    def id_loops(o):
+        out = []
+        for lo in loops:
+            if not set(lo[4]) < set(o[4]): continue
+            r = route_of(lo[0].args[0])
+            if r is not None and r.loops and r.loops[-1][0] is o[0] and tuple_fields(r) == ['0'] and not [x for x in r.calls if x in RESTRICTING]: out.append(lo)
+        return out
+    term.sort(key=lambda x: not id_loops(x[0]))
+    o, ro = term[0]
+    restr = [x for x in ro.calls if x in RESTRICTING]
+    ctx.check(not restr, R + '/term-loop/all-terms-of-self', 'T-LOOPMUST', b.name, 'not all terms of self are visited: %s' % restr, b.site(o[0].bb))
+    # ---- Ok-exits that bypass the pass: only for the empty map, returning self unchanged
+    bypass = sorted(e for e in oks if not T.must_pass(b, 0, {e}, {o[1]}))
+    guards = []
+    for c in b.calls:
+        if c.item == 'is_empty' and 'HashMap' in c.name and T.access_path(b, c.args[0])[1] == 2:           # replacements.is_empty()
+            guards += [(g.true_bb, g.false_bb) for g in T.guards_from_call(b, c)]
+    for bi, st in b.stmts():                                                                              # replacements.len() == 0
+        rv = st['rv']
+        if rv['k'] == 'bin' and rv['op'] in ('Eq', 'Ne'):
+            xs = [T.expr(b, x) for x in rv['ops']]
+            ln = [x for x in xs if x[0] == 'call' and x[1] == 'len' and 'HashMap' in x[2] and T.access_path(b, _call_at(b, x[4]).args[0])[1] == 2]
+            zr = [x for x in xs if x[0] == 'const' and T.f64_const(x[1]) == 0.0]
+            if ln and zr:
+                for g in T.guards_from_local(b, st['dst']['l'], bi):
+                    guards.append((g.true_bb, g.false_bb) if rv['op'] == 'Eq' else (g.false_bb, g.true_bb))
+    sc_ok = True; why = ''
+    for e in bypass:
+        guarded = any(t is not None and e in T.reach_cp(b, [t]) and (f is None or e not in T.reach_cp(b, [f])) for t, f in guards)
+        vals = [st for bi, k, st in b.ret_assignments() if bi == e and k == 'ok']
+        ident = bool(vals) and all(T.strip_wrappers(T.expr(b, st['rv']['ops'][0])) == ('place', 1, []) and T.expr_has_call(T.expr(b, st['rv']['ops'][0]), 'clone') for st in vals)
+        if not guarded: sc_ok = False; why = 'an Ok-exit that skips the pass over the terms is reachable with a non-empty replacement map'
+        elif not ident: sc_ok = False; why = 'the empty-map shortcut does not return a clone of self'
+    ctx.check(sc_ok, R + '/shortcut-only-for-empty-map', 'T-BRANCHFX', b.name, why, b.site(bypass[0]) if bypass else b.site())
+    # ---- the ids of the current term
+    inner = id_loops(o)
+    ctx.check(bool(inner), R + '/id-loop', 'T-LOOPMUST', b.name, 'no loop over all ids of the current term', b.site(o[0].bb))
+    if not inner: return
+    def from_loop_item(op, lo):
+        r = route_of(op)
+        return r is not None and bool(r.loops) and r.loops[-1][0] is lo[0]
+    best = None
+    for i in inner:
+        res = _id_loop_checks(b, o, i, from_loop_item)
+        sc = sum(1 for x in res.values() if x is True)
+        if best is None or sc > best[0]: best = (sc, i, res)
+    _, i, res = best
+    ctx.check(res['probe'], R + '/probe', 'T-BRANCHFX', b.name, 'no lookup of the id in the replacement map (get / contains_key)', b.site(i[0].bb))
+    ctx.check(res['key'], R + '/probe/key', 'T-CARRY', b.name, 'the lookup is not replacements.<probe>(id of this term)', b.site(i[0].bb))
+    ctx.check(res['every'], R + '/probe/every-id', 'T-LOOPMUST', b.name, 'an id of the term can bypass the lookup', b.site(i[0].bb))
+    ctx.check(res['replaced'], R + '/case/replaced', 'T-BRANCHFX', b.name, 'a replaced id does not multiply the term by its replacement', b.site(i[0].bb))
+    ctx.check(res['kept'], R + '/case/kept', 'T-BRANCHFX', b.name, 'an id without replacement does not multiply the term by x_id (single_term(id, 1.0))', b.site(i[0].bb))
+    ctx.check(res['acc'], R + '/product/accumulates', 'T-CARRY', b.name, 'the factors are not multiplied into one running product per term', b.site(i[0].bb))
+    ctx.check(res['init'], R + '/product-starts-from-coefficient', 'T-CARRY', b.name, 'the factor product does not start from Function::from(coefficient of the term)', b.site(i[0].bb))
+    v = res['v']
+    # ---- out = out + product for every term; starts from zero; returned
     adds = [c for c in b.calls if c.bb in o[4] and c.bb not in i[4] and c.item == 'add' and (c.trait or '').endswith('ops::Add') and 'v1::Function' in c.name]
-    ctx.check(len(adds) == 1, R + '/sum/one-add', 'T-LOOPMUST', b.name, 'expected one `out = out + v`, found %d' % len(adds), b.site())
+    good = None
     for c in adds:
-        ctx.check(T.must_pass(b, o[2], {o[1]}, {c.bb}), R + '/sum/every-term', 'T-LOOPMUST', b.name, 'a term can be skipped', b.site(c.bb))
-        s1 = ctx.S.slice_operand(b, c.args[1]); s0 = ctx.S.slice_operand(b, c.args[0])
-        ctx.check(all(m in s1.call_objs for m in muls) and any(f in s1.call_objs for f in froms), R + '/sum/adds-the-product', 'T-CARRY', b.name, 'the added value is not the factor product of this term', b.site(c.bb))
-        for e, k, st in b.ret_assignments():
-            if k == 'ok' and e not in b.reach([0], stop={o[1]}) | set():
-                s = ctx.S.slice_operand(b, st['rv']['ops'][0])
-                ctx.check(c in s.call_objs, R + '/sum/returned', 'T-CARRY', b.name, 'the accumulated sum is not returned', b.site(e))
-    zs = [c for c in b.calls if c.item == 'zero' and 'v1::Function' in c.name]
-    ctx.check(len(zs) == 1 and zs[0].bb not in o[4], R + '/sum/starts-from-zero', 'T-CONST', b.name, 'the sum does not start from Function::zero()', b.site())
-    si = ctx.S.slice_operand(b, o[0].args[0])
-    restr = sorted({x.item for x in si.call_objs if x.item in RESTRICTING and 'Iterator' in (x.trait or '')})
-    ctx.check(not restr and T.access_path(b, [c for c in si.call_objs if c.item == 'into_iter' and 'v1::Function' in c.name][0].args[0])[1] == 1, R + '/term-loop/all-terms-of-self', 'T-LOOPMUST', b.name, 'not all terms of self are visited', b.site())
+        ra, rb = _acc_root(b, c.args[0]), _acc_root(b, c.args[1])
+        for s_, p_ in ((ra, rb), (rb, ra)):
+            if s_ is None or p_ is None or s_ == p_ or p_ != v: continue
+            inside = _leaf_defs(b, s_, lambda x: x in o[4]); outside = _leaf_defs(b, s_, lambda x: x not in o[4])
+            upd = bool(inside) and all(e[0] == 'call' and e[4:5] == (c.bb,) for e in inside)
+            zero = bool(outside) and all(_is_zero_function(e) for e in outside)
+            every = T.must_pass(b, o[2], {o[1]}, {c.bb})
+            rets = [st for e, k, st in b.ret_assignments() if k == 'ok' and e not in bypass]
+            ret = bool(rets) and all(_acc_root(b, st['rv']['ops'][0]) == s_ for st in rets)
+            cand = dict(c=c, upd=upd, zero=zero, every=every, ret=ret)
+            if good is None or sum(map(bool, cand.values())) > sum(map(bool, good.values())): good = cand
+    ctx.check(good is not None, R + '/sum/adds-the-product', 'T-CARRY', b.name, 'the factor product of a term is not added to the result', b.site(o[0].bb))
+    if good is None: return
+    ctx.check(good['every'], R + '/sum/every-term', 'T-LOOPMUST', b.name, 'a term can be skipped', b.site(good['c'].bb))
+    ctx.check(good['upd'], R + '/sum/accumulates', 'T-CARRY', b.name, 'the result is not the running sum `out = out + product`', b.site(good['c'].bb))
+    ctx.check(good['zero'], R + '/sum/starts-from-zero', 'T-CONST', b.name, 'the sum does not start from the zero function', b.site(good['c'].bb))
+    ctx.check(good['ret'], R + '/sum/returned', 'T-CARRY', b.name, 'the accumulated sum is not what is returned', b.site(good['c'].bb))
+
+
+def _id_loop_checks(b, o, i, from_loop_item):
+    """rules about one candidate loop `i` over the ids of the term of loop `o`"""
+    res = dict(probe=False, key=False, every=False, replaced=False, kept=False, acc=False, init=False, v=None)
+    muls = [c for c in b.calls if c.bb in i[4] and c.item == 'mul' and (c.trait or '').endswith('ops::Mul') and 'for v1::Function' in c.name]
+    def map_read(e, items):
+        """e is `replacements.<item>(id of loop i)`"""
+        if e[0] != 'call' or e[1] not in items or 'HashMap' not in e[2] or len(e) < 5: return False
+        c = _call_at(b, e[4])
+        return c is not None and len(c.args) >= 2 and T.access_path(b, c.args[0])[1] == 2 and from_loop_item(c.args[1], i)
+    probes = []
+    for c in b.calls:
+        if c.bb in i[4] and c.item in PROBES and 'HashMap' in c.name and T.access_path(b, c.args[0])[1] == 2:
+            if PROBES[c.item] == 'option':
+                for sb, m, els in T.option_arms(b, c.dst['l']): probes.append((c, m.get(1, els), m.get(0, els)))
+            else:
+                for g in T.guards_from_call(b, c):
+                    if g.true_bb is not None and g.false_bb is not None: probes.append((c, g.true_bb, g.false_bb))
+    res['probe'] = bool(probes)
+    # the running product: the local every Mul of the loop reads its left operand from and is assigned to
+    vroots = {}
+    for m in muls:
+        for a in (0, 1):
+            r = _acc_root(b, m.args[a])
+            if r is not None and len(_whole_defs(b, r)) > 1: vroots.setdefault(r, []).append((m, a))
+    for p, present, absent in probes:
+        if not (len(p.args) >= 2 and from_loop_item(p.args[1], i)): continue
+        res['key'] = True
+        if T.must_pass(b, i[2], {i[1]}, {p.bb}): res['every'] = True
+        for v, uses in vroots.items():
+            def arm_ok(start, other, want):
+                via = set()
+                for m, a in uses:
+                    vals = _arm_values(b, m.args[1 - a], start, other, i[1], m.bb)
+                    if vals and all(want(T.strip_wrappers(x)) for x in vals): via.add(m.bb)
+                return bool(via) and T.must_pass(b, start, {i[1]}, via)
+            def is_repl(e): return map_read(e, REPLACEMENT_READS)
+            def is_xid(e):
+                if e[0] != 'call' or e[1] != 'single_term' or 'v1::Linear' not in e[2] or len(e) < 5: return False       # Linear::single_term(id, 1.0), also under Function::from / .into()
+                c = _call_at(b, e[4])
+                return c.args[1]['k'] == 'const' and T.f64_const(c.args[1]['v']) == 1.0 and from_loop_item(c.args[0], i)
+            rep = arm_ok(present, absent, is_repl); kept = arm_ok(absent, present, is_xid)
+            inside = _leaf_defs(b, v, lambda x: x in i[4]); outside = _leaf_defs(b, v, lambda x: x not in i[4])
+            outside_in_term = all(bi in o[4] for k, bi, d in _whole_defs(b, v) if bi not in i[4])
+            acc = bool(inside) and all(e[0] == 'call' and len(e) > 4 and any(m.bb == e[4] for m, a in uses) for e in inside)
+            def is_coef(e):
+                if e[0] != 'call' or not re.search(FROM_F64, e[2]) or len(e) < 5: return False
+                c = _call_at(b, e[4])
+                rs = trace_operand(b.facts, b, c.args[0])
+                return len(rs) == 1 and rs[0].ok() and bool(rs[0].loops) and rs[0].loops[-1][0] is o[0] and [f for a, f in rs[0].fields if a == 'tuple'] == ['1']
+            init = bool(outside) and outside_in_term and all(is_coef(e) for e in outside)
+            sc = (rep, kept, acc, init)
+            if res['v'] is None or sum(sc) > sum((res['replaced'], res['kept'], res['acc'], res['init'])):
+                res.update(replaced=rep, kept=kept, acc=acc, init=init, v=v)
+    return res
+
+
+# ------------------------------------------------------------------------------------------------ C04.deps
+# taking one entry out of the work list: the call's Option result, Some(entry)
+TAKE = {
+    'pop': 'Vec::pop / VecDeque::pop_back in a `while let`',
+    'pop_back': 'VecDeque', 'pop_front': 'VecDeque',
+    'next': 'for entry in work.into_iter() / .rev() / .drain(..)',
+}
+# between the work list and the take call: every entry once, any order
+WORK_TRAVERSE = re.compile(r'::(into_iter|iter|rev|by_ref|deref|deref_mut|as_slice|as_mut_slice|into_vec)(::<.*>)?$')
+# keeping an entry for the next round
+PUT = {'push': 'Vec', 'push_back': 'VecDeque', 'push_front': 'VecDeque'}
+# pending size vs size of the round's work list: (op, position of pending len) -> value of the comparison that means "no progress"
+#   entries of a round are either evaluated or pending, so pending <= work; progress <=> pending < work
+NO_PROGRESS = {
+    ('Eq', 0): True, ('Eq', 1): True,        # pending == work
+    ('Ne', 0): False, ('Ne', 1): False,      # pending != work  is progress
+    ('Lt', 0): False,                        # ensure!(pending < work)
+    ('Gt', 1): False,                        # work > pending
+    ('Ge', 0): True,                         # pending >= work
+    ('Le', 1): True,                         # work <= pending
+}
+
+
+def _taken(b, op):
+    """operand is (a projection of) the entry produced by a TAKE call: (call, tuple fields) or None"""
+    e = T.expr(b, op)
+    e = T.strip_wrappers(e)
+    if e[0] == 'proj' and e[1][0] == 'call' and e[1][1] in TAKE and len(e[1]) > 4:
+        return _call_at(b, e[1][4]), [f for a, f in e[2] if a == 'tuple']
+    if e[0] == 'call' and e[1] in TAKE and len(e) > 4:            # the whole entry (its `Some` payload projection is a wrapper)
+        return _call_at(b, e[4]), []
+    return None
+
+
+def _root(b, op, tr=None):
+    return T.access_path(b, op, transparent=tr or T.TRANSPARENT_NOCLONE)[1] if op['k'] in ('copy', 'move') else None
+
+
+def _transfers(b, src, dst):
+    """blocks in which the whole content of collection local `src` is moved into collection local `dst`:
+       dst = src  |  dst.append(&mut src)  |  dst = mem::take(&mut src)  |  dst.extend(src)  |  mem::swap(&mut dst, &mut src)"""
+    out = set()
+    def taken_from(t):
+        return bool(re.search(r'mem::(take|replace)', t['r'] or t['f'])) and bool(t['args']) and _root(b, t['args'][0]) == src
+    for k, bi, d in _whole_defs(b, dst):
+        if k == 'stmt' and d['rv']['k'] == 'use' and d['rv']['ops'][0]['k'] == 'move':
+            r = _root(b, d['rv']['ops'][0])
+            ds = _whole_defs(b, r) if r is not None and r > b.argc else []
+            if r == src or (len(ds) == 1 and ds[0][0] == 'call' and taken_from(ds[0][2])): out.add(bi)
+        if k == 'call' and taken_from(d): out.add(bi)
+    for c in b.calls:
+        if c.item in ('append', 'extend') and len(c.args) == 2 and _root(b, c.args[0]) == dst and _root(b, c.args[1]) == src: out.add(c.bb)
+        if c.item == 'swap' and re.search(r'mem::swap', c.name) and len(c.args) == 2 and {_root(b, c.args[0]), _root(b, c.args[1])} == {src, dst}: out.add(c.bb)
+    return out
 
 
 def deps_rules(ctx):
     R = 'C04.deps'
     b = ctx.free_fn(R + '/anchor', 'evaluate::eval_dependencies')
     if b is None: return
-    oks = b.strict_ok_exits(); errs = b.err_exits()
-    # queue initialised from every dependency
-    pops = [c for c in b.calls if c.item == 'pop' and 'Vec::<(&u64, &v1::Function)>' in c.name]
-    ctx.check(len(pops) == 1, R + '/queue/pop', 'T-LOOPMUST', b.name, 'expected one bucket.pop()', b.site())
-    if len(pops) != 1: return
-    pop = pops[0]
-    bucket = T.access_path(b, pop.args[0], transparent=T.TRANSPARENT_NOCLONE)[1]
-    s = ctx.S.backslice(b, [bucket], depth=0)
-    restr = sorted({x.item for x in s.call_objs if x.item in RESTRICTING and 'Iterator' in (x.trait or '')})
-    ctx.check(1 in s.params and any(c.item == 'collect' for c in s.call_objs) and not restr, R + '/queue/all-dependencies', 'T-CARRY', b.name, 'the work list is not initialised with every dependency', b.site())
-    # evaluate the popped function at the state; Ok => store under the popped id; Err => re-queue the same pair
-    ev = [c for c in b.calls if c.item == 'evaluate' and 'v1::Function as evaluate::Evaluate' in c.name]
-    ctx.check(len(ev) == 1, R + '/step/evaluate', 'T-LOOPMUST', b.name, 'expected one f.evaluate(state)', b.site())
-    if len(ev) != 1: return
-    ev = ev[0]
-    fx = T.expr(b, ev.args[0]); sx = T.strip_wrappers(T.expr(b, ev.args[1]))
-    ctx.check(any(x[0] == 'call' and x[1] == 'pop' for x in T.expr_walk(fx)) and [f for a, f in T.own_fields(fx) if a == 'tuple'][-1:] == ['1'], R + '/step/evaluates-popped-function', 'T-CARRY', b.name,
-              'the evaluated function is not the popped one', b.site(ev.bb))
-    ctx.check(sx == ('place', 2, []), R + '/step/at-current-state', 'T-CARRY', b.name, 'not evaluated at the state being completed', b.site(ev.bb))
-    arms = T.option_arms(b, ev.dst['l'])
-    ok_store = ok_requeue = False
-    some_pop = [m.get(1, els) for sb, m, els in T.option_arms(b, pop.dst['l'])]
+    oks = _ok_exits(b); errs = b.err_exits()
     hdrs = set(b.loops())
-    for sb, m, els in arms:
+    best = None
+    for ev in [c for c in b.calls if c.item == 'evaluate' and 'v1::Function as evaluate::Evaluate' in c.name]:
+        res = _step_checks(b, ev, hdrs)
+        sc = sum(1 for k in ('popped', 'state', 'store', 'requeue') if res[k])
+        if best is None or sc > best[0]: best = (sc, ev, res)
+    ctx.check(best is not None and best[2]['take'] is not None, R + '/step/evaluate', 'T-LOOPMUST', b.name, 'no step `entry taken from the work list; f.evaluate(state)`', b.site())
+    if best is None or best[2]['take'] is None: return
+    _, ev, res = best
+    t = res['take']; step = res['step']; W = res['W']
+    ctx.check(res['popped'], R + '/step/evaluates-popped-function', 'T-CARRY', b.name, 'the evaluated function is not the one of the taken entry', b.site(ev.bb))
+    ctx.check(res['state'], R + '/step/at-current-state', 'T-CARRY', b.name, 'not evaluated at the state being completed', b.site(ev.bb))
+    ctx.check(res['store'], R + '/step/store-under-own-id', 'T-BRANCHFX', b.name, 'a successfully evaluated dependency is not stored as state[id] = value of the same entry', b.site(ev.bb))
+    ctx.check(res['requeue'], R + '/step/requeue-same-entry', 'T-BRANCHFX', b.name, 'a dependency that cannot be evaluated yet is not kept unchanged for the next round', b.site(ev.bb))
+    # ---- the work list starts from every dependency
+    first = [(k, bi, d) for k, bi, d in _whole_defs(b, W) if not any(bi in bl for bl in b.loops().values())] if W is not None else []
+    def all_deps(k, bi, d):
+        if k != 'call': return False
+        c = _call_at(b, bi)
+        if c.item not in ('collect', 'from_iter') or not c.args: return False            # dependencies.iter().collect()  ≡  Vec::from_iter(dependencies)
+        rs = trace_operand(ctx.F, b, c.args[0])
+        return len(rs) == 1 and rs[0].ok() and rs[0].root == 1 and not rs[0].loops and not [x for x in rs[0].calls if x in RESTRICTING]
+    if first and all(all_deps(*x) for x in first):
+        ctx.ok(R + '/queue/all-dependencies', 'T-CARRY', b.site(first[0][1]))
+    else:
+        s = ctx.S.backslice(b, [W], depth=0) if W is not None else None
+        restr = sorted({x.item for x in s.call_objs if x.item in RESTRICTING and 'Iterator' in (x.trait or '')}) if s else ['?']
+        if s is not None and 1 in s.params and any(c.item in ('collect', 'from_iter', 'push', 'extend') for c in s.call_objs) and not restr:
+            ctx.undecided(R + '/queue/all-dependencies', 'T-CARRY', b.site(), 'initialisation of the work list not recognised step by step')
+            ctx.ok(R + '/queue/all-dependencies~slice', 'T-CARRY', b.site())
+        else:
+            ctx.bad(R + '/queue/all-dependencies', 'T-CARRY', b.name, 'the work list is not initialised with every dependency', b.site())
+    if not res['requeue']: return
+    P = res['P']
+    # ---- the retry loop around the step loop
+    outer = [h for h, bl in b.loops().items() if step[0] in bl and h != step[0]]
+    outer_h = max(outer, key=lambda h: len(b.loops()[h])) if outer else None
+    ctx.check(outer_h is not None, R + '/retry-loop', 'T-LOOPMUST', b.name, 'the step loop is not repeated (chains of dependencies need several rounds)', b.site(t.bb))
+    if outer_h is None: return
+    tails = {tl for tl, hh in b.back_edges() if hh == outer_h}
+    none_bb = step[2]
+    # ---- (a) Ok only when nothing is pending
+    tests = []          # (collection local, true=empty start, false start, switch bb)
+    for c in b.calls:
+        if c.item == 'is_empty' and c.args:
+            for g in T.guards_from_call(b, c): tests.append((_root(b, c.args[0]), g.true_bb, g.false_bb, g.switch_bb))
+    for bi, st in b.stmts():
+        rv = st['rv']
+        if rv['k'] == 'bin' and rv['op'] in ('Eq', 'Ne') and rv.get('ty') == 'usize':          # x.len() == 0
+            xs = [T.expr(b, x) for x in rv['ops']]
+            ln = [x for x in xs if x[0] == 'call' and x[1] == 'len' and len(x) > 4]
+            zr = [x for x in xs if x[0] == 'const' and T.f64_const(x[1]) == 0.0]
+            if ln and zr:
+                for g in T.guards_from_local(b, st['dst']['l'], bi):
+                    tt, ff = (g.true_bb, g.false_bb) if rv['op'] == 'Eq' else (g.false_bb, g.true_bb)
+                    tests.append((_root(b, _call_at(b, ln[0][4]).args[0]), tt, ff, g.switch_bb))
+    a_ok = False
+    for X, tt, ff, sb in tests:
+        if tt is None or ff is None or X is None: continue
+        if X == P:
+            if not T.must_pass(b, 0, {sb}, {step[0]}): continue                     # tested before the round has filled it
+        else:
+            tb = _transfers(b, P, X)
+            if not tb or not T.must_pass(b, none_bb, {sb}, tb): continue            # what is tested is not the pending list of the round just finished
+        tr = T.reach_cp(b, [tt]); fr = T.reach_cp(b, [ff], stop={sb})
+        if oks and oks <= tr and not (fr & oks) and all(b.dominates(sb, e) for e in oks): a_ok = True
+    ctx.check(a_ok, R + '/exit/ok-only-when-nothing-pending', 'T-GUARD', b.name, 'Ok can be returned while dependencies are still pending (partial answer)', b.site())
+    # ---- (b) a round without progress is an error
+    stall = None
+    for bi, st in b.stmts():
+        rv = st['rv']
+        if rv['k'] != 'bin' or rv.get('ty') != 'usize' or rv['op'] not in ('Eq', 'Ne', 'Lt', 'Le', 'Gt', 'Ge'): continue
+        xs = [T.expr(b, x) for x in rv['ops']]
+        for pos in (0, 1):
+            x = xs[pos]; y = xs[1 - pos]
+            if not (x[0] == 'call' and x[1] == 'len' and len(x) > 4 and _root(b, _call_at(b, x[4]).args[0]) == P): continue
+            if (rv['op'], pos) not in NO_PROGRESS: continue
+            # pending size taken after the step loop of this round
+            if not T.must_pass(b, outer_h, {x[4]}, {step[0]}): continue
+            for g in T.guards_from_local(b, st['dst']['l'], bi):
+                es, ps = (g.true_bb, g.false_bb) if NO_PROGRESS[(rv['op'], pos)] else (g.false_bb, g.true_bb)
+                if es is None or ps is None: continue
+                r = T.reach_cp(b, [es])
+                if (r & errs) and not (r & oks) and outer_h not in r:
+                    stall = dict(bb=bi, sw=g.switch_bb, progress=ps, nexpr=y)
+    ctx.check(stall is not None, R + '/exit/no-progress-is-error', 'T-GUARD', b.name, 'no `pending size not smaller than the work list => error` test (cyclic dependencies would loop forever)', b.site())
+    if stall is not None:
+        ctx.check(bool(tails) and all(T.must_pass(b, none_bb, {tl}, {stall['sw']}) for tl in tails), R + '/exit/stall-test-before-retry', 'T-LOOPMUST', b.name, 'a retry round can start without the stall test', b.site(stall['bb']))
+        # (c) the size compared with is the size of the work list of this very round
+        ndefs = []
+        y = stall['nexpr']
+        if y[0] == 'call' and y[1] == 'len' and len(y) > 4: ndefs = [('call', y[4], _call_at(b, y[4]))]
+        elif y[0] in ('local', 'place') and not (y[0] == 'place' and y[2]):
+            for k, bi, d in _whole_defs(b, y[1]):
+                e = _def_expr(b, k, bi, d)
+                ndefs.append(('call', bi, _call_at(b, e[4])) if e[0] == 'call' and e[1] == 'len' and len(e) > 4 else ('other', bi, None))
+        sizes_ok = bool(ndefs) and all(k == 'call' and _root(b, c.args[0]) in (W, P) and (_root(b, c.args[0]) == W or bool(_transfers(b, P, W))) for k, bi, c in ndefs)
+        before_step = bool(ndefs) and all(T.must_pass(b, bi, {stall['bb']}, {step[0]}) for k, bi, c in ndefs)
+        ctx.check(sizes_ok and before_step, R + '/exit/initial-measure', 'T-CARRY', b.name, 'the size the pending list is compared with is not the size of the work list at the start of the round', b.site(stall['bb']))
+        fresh = bool(ndefs) and T.must_pass(b, stall['progress'], {stall['bb']}, {bi for k, bi, c in ndefs})
+        ctx.check(fresh, R + '/exit/progress-measure-updated', 'T-BRANCHFX', b.name, 'the remembered work-list size is not updated before retrying', b.site(stall['bb']))
+    # ---- pending entries are the next round's work list
+    tb = _transfers(b, P, W) if W is not None else set()
+    start = stall['progress'] if stall is not None else none_bb
+    ctx.check(bool(tb) and all(T.must_pass(b, start, {tl}, tb) for tl in tails), R + '/queue/pending-requeued', 'T-BRANCHFX', b.name, 'pending entries are not moved back into the work list', b.site())
+
+
+def _step_checks(b, ev, hdrs):
+    res = dict(take=None, step=None, W=None, P=None, popped=False, state=False, store=False, requeue=False)
+    tk = _taken(b, ev.args[0])
+    if tk is None: return res
+    t, tf = tk
+    step = T.loop_of_next(b, t)
+    if step is None: return res
+    res.update(take=t, step=step, W=_root(b, t.args[0], WORK_TRAVERSE), popped=(tf[-1:] == ['1']))
+    res['state'] = T.strip_wrappers(T.expr(b, ev.args[1])) == ('place', 2, [])
+    stop = hdrs | {t.bb}
+    for sb, m, els in T.option_arms(b, ev.dst['l']):
         okb = m.get(0, els); erb = m.get(1, els)
-        okr = b.reach([okb], stop=hdrs | {pop.bb}) - b.reach([erb], stop=hdrs | {pop.bb}); err = b.reach([erb], stop=hdrs | {pop.bb}) - b.reach([okb], stop=hdrs | {pop.bb})
+        okr = b.reach([okb], stop=stop) - b.reach([erb], stop=stop); err = b.reach([erb], stop=stop) - b.reach([okb], stop=stop)
         for c in b.calls:
             if c.bb in okr and c.item == 'insert' and 'HashMap::<u64, f64>::insert' in c.name:
-                kx = T.expr(b, c.args[1]); vx = T.expr(b, c.args[2])
-                key_ok = kx[0] == 'proj' and kx[1][0] == 'call' and kx[1][1] == 'pop' and [f for a, f in T.own_fields(kx) if a == 'tuple'] == ['0']
+                kt = _taken(b, c.args[1]); vx = T.expr(b, c.args[2])
+                key_ok = kt is not None and kt[0] is t and kt[1] == ['0'] and T.expr(b, c.args[1])[0] == 'proj'
                 val_ok = any(x[0] == 'call' and x[1] == 'evaluate' and len(x) > 4 and x[4] == ev.bb for x in T.expr_walk(vx)) and [f for a, f in T.own_fields(vx) if a == 'tuple'][-1:] == ['0']
-                tgt_ok = ('v1::State', 'entries') in T.access_path(b, c.args[0])[0] and T.access_path(b, c.args[0])[1] == 2
-                if key_ok and val_ok and tgt_ok and T.must_pass(b, okb, {pop.bb}, {c.bb}): ok_store = True
-            if c.bb in err and c.item == 'push' and 'Vec::<(&u64, &v1::Function)>::push' in c.name:
+                ap = T.access_path(b, c.args[0])
+                tgt_ok = ('v1::State', 'entries') in ap[0] and ap[1] == 2
+                if key_ok and val_ok and tgt_ok and T.must_pass(b, okb, {t.bb}, {c.bb}): res['store'] = True
+            if c.bb in err and c.item in PUT and len(c.args) == 2:
                 px = T.expr(b, c.args[1])
                 if px[0] == 'agg' and px[1] == 'tuple' and len(px[2]) == 2:
-                    k0 = [f for a, f in T.own_fields(px[2][0]) if a == 'tuple'][-1:]; k1 = [f for a, f in T.own_fields(px[2][1]) if a == 'tuple'][-1:]
-                    both_pop = all(any(x[0] == 'call' and x[1] == 'pop' for x in T.expr_walk(y)) for y in px[2])
-                    if k0 == ['0'] and k1 == ['1'] and both_pop and T.must_pass(b, erb, {pop.bb}, {c.bb}):
-                        ok_requeue = True; pending = T.access_path(b, c.args[0], transparent=T.TRANSPARENT_NOCLONE)[1]
-    ctx.check(ok_store, R + '/step/store-under-own-id', 'T-BRANCHFX', b.name, 'a successfully evaluated dependency is not stored as state[id] = value of the same entry', b.site(ev.bb))
-    ctx.check(ok_requeue, R + '/step/requeue-same-entry', 'T-BRANCHFX', b.name, 'a dependency that cannot be evaluated yet is not re-queued unchanged', b.site(ev.bb))
-    if not ok_requeue: return
-    # (a) pending list empty <=> the only Ok-exit
-    emp = [c for c in b.calls if c.item == 'is_empty' and T.access_path(b, c.args[0], transparent=T.TRANSPARENT_NOCLONE)[1] == pending]
-    a_ok = False
-    for c in emp:
-        for g in T.guards_from_call(b, c):
-            tr = T.reach_cp(b, [g.true_bb], stop=hdrs); fr = T.reach_cp(b, [g.false_bb], stop=hdrs) if g.false_bb is not None else set()
-            if (tr & oks) and not (tr & errs) and not (fr & oks) and g.dominates_ok_exits(): a_ok = True
-    ctx.check(a_ok, R + '/exit/ok-only-when-nothing-pending', 'T-GUARD', b.name, 'Ok can be returned while dependencies are still pending (partial answer)', b.site())
-    # (b) no progress => Err ; (c) progress measure updated
-    prev = None; b_ok = False
-    for bi, st in b.stmts():
-        if st['rv']['k'] == 'bin' and st['rv']['op'] == 'Eq' and st['rv'].get('ty') == 'usize':
-            xs = [T.expr(b, o) for o in st['rv']['ops']]
-            lens = [x for x in xs if x[0] == 'call' and x[1] == 'len']
-            others = [x for x in xs if not (x[0] == 'call' and x[1] == 'len')]
-            if lens and others and others[0][0] in ('local', 'place'):
-                for g in T.guards_from_local(b, st['dst']['l'], bi):
-                    tr = T.reach_cp(b, [g.true_bb], stop=hdrs)
-                    if (tr & errs) and not (tr & oks) and not any(h in T.reach_cp(b, [g.true_bb]) for h in hdrs if False):
-                        b_ok = True; prev = others[0][1]; cont_bb = g.false_bb; eq_bb = bi
-    ctx.check(b_ok, R + '/exit/no-progress-is-error', 'T-GUARD', b.name, 'no `pending size unchanged => error` test (cyclic dependencies would loop forever)', b.site())
-    if b_ok:
-        # the stall test sits on every path that goes round the outer loop again
-        outer_h = [h for h, bl in b.loops().items() if eq_bb in bl]
-        outer_h = max(outer_h, key=lambda h: len(b.loops()[h])) if outer_h else None
-        ctx.check(outer_h is not None and all(eq_bb in b.back_reach({t}) and T.must_pass(b, outer_h, {t} if False else set(), set()) is not None for t, hh in b.back_edges() if hh == outer_h), R + '/exit/stall-test-on-every-retry', 'T-LOOPMUST', b.name, 'retry path bypasses the stall test', b.site())
-        if outer_h is not None:
-            tails = [t for t, hh in b.back_edges() if hh == outer_h]
-            # every path from the pop-loop exit (queue drained) to the back edge passes the Eq test
-            none_pop = [m.get(0, els) for sb, m, els in T.option_arms(b, pop.dst['l'])]
-            ctx.check(all(T.must_pass(b, n, set(tails), {eq_bb}) for n in none_pop), R + '/exit/stall-test-before-retry', 'T-LOOPMUST', b.name, 'a retry round can start without the stall test', b.site())
-        c_ok = False
-        for k, bi, d in b.defs_of(prev):
-            if k == 'stmt' and bi in T.reach_cp(b, [cont_bb], stop=hdrs):
-                ex = T.expr(b, d['rv']['ops'][0]) if d['rv'].get('ops') else None
-                if ex and ex[0] == 'call' and ex[1] == 'len': c_ok = True
-        ctx.check(c_ok, R + '/exit/progress-measure-updated', 'T-BRANCHFX', b.name, 'the remembered pending size is not updated before retrying', b.site())
-        # initial measure = number of dependencies
-        init_ok = any(k == 'call' and (d['r'] or d['f']).endswith('::len') and bi not in set().union(*b.loops().values()) for k, bi, d in b.defs_of(prev))
-        ctx.check(init_ok, R + '/exit/initial-measure', 'T-CARRY', b.name, 'the progress measure does not start from the number of dependencies', b.site())
-    # pending entries go back into the work list
-    app = [c for c in b.calls if c.item == 'append' and 'Vec::<(&u64, &v1::Function)>' in c.name]
-    okapp = any(T.access_path(b, c.args[0], transparent=T.TRANSPARENT_NOCLONE)[1] == bucket and T.access_path(b, c.args[1], transparent=T.TRANSPARENT_NOCLONE)[1] == pending for c in app)
-    ctx.check(okapp, R + '/queue/pending-requeued', 'T-BRANCHFX', b.name, 'pending entries are not moved back into the work list', b.site())
+                    same = []
+                    for j, y in enumerate(px[2]):
+                        y = T.strip_wrappers(y)
+                        same.append(y[0] == 'proj' and y[1][0] == 'call' and len(y[1]) > 4 and y[1][4] == t.bb and [f for a, f in y[2] if a == 'tuple'] == [str(j)])
+                    if all(same) and T.must_pass(b, erb, {t.bb}, {c.bb}):
+                        res['requeue'] = True; res['P'] = _root(b, c.args[0])
+                else:
+                    kt = _taken(b, c.args[1])          # the entry pushed as a whole
+                    if kt is not None and kt[0] is t and kt[1] == [] and T.must_pass(b, erb, {t.bb}, {c.bb}):
+                        res['requeue'] = True; res['P'] = _root(b, c.args[0])
+    return res
+
+
+# ------------------------------------------------------------------------------------------------ C04.use
+# writes into a map id -> value: item -> index of the value argument (an index past the arguments = a default is written)
+STATE_WRITES = {
+    'insert': -1,                  # HashMap::insert(map, k, v) / VacantEntry::insert(e, v): last argument
+    'or_insert': 1,                # entry(k).or_insert(v)
+    'or_insert_with': 1,           # entry(k).or_insert_with(|| v): the closure is the value
+    'or_default': 99,              # entry(k).or_default()
+    'insert_entry': -1,
+}
 
 
 def use_rules(ctx):
     for item in ('evaluate', 'evaluate_samples'):
         b = ctx.method('C04.use/%s/anchor' % item, INST, item, trait='Evaluate')
         if b is None: continue
-        ed = [c for c in b.calls if c.item == 'eval_dependencies']
-        ok = len(ed) == 1 and ctx.S.slice_operand(b, ed[0].args[0]).has_field(INST, 'decision_variable_dependency')
-        ctx.check(ok, 'C04.use/%s/calls-eval_dependencies' % item, 'T-MUSTCALL', b.name, 'eval_dependencies is not applied to the dependency map', b.site())
-        errflow_calls(ctx, 'C04.use/%s/error' % item, b, ed, 'eval_dependencies')
-        # variables without a value must still be missing when the dependencies are evaluated: a default
-        # filled in earlier would hide cyclic / unsatisfiable dependencies and feed placeholders into chains
-        vac = [c for c in b.calls if c.item == 'insert' and 'VacantEntry' in c.name]
-        if ed:
-            early = [b.site(c.bb) for c in vac if not b.dominates(ed[0].bb, c.bb)]
+        oks = _ok_exits(b)
+        ed = [c for c in b.calls if c.item == 'eval_dependencies' and c.args and ctx.S.slice_operand(b, c.args[0]).has_field(INST, 'decision_variable_dependency')]
+        def every_time(c):
+            # once per evaluation, or once per sample state: for every element of a loop that lies on every success path
+            if T.must_pass(b, 0, oks, {c.bb}): return True
+            for lo in T.for_loops(b):
+                if c.bb in lo[4] and T.must_pass(b, lo[2], {lo[1]}, {c.bb}) and T.must_pass(b, 0, oks, {lo[1]}):
+                    if not [x.item for x in ctx.S.slice_operand(b, lo[0].args[0]).call_objs if x.item in RESTRICTING and 'Iterator' in (x.trait or '')]: return True
+            return False
+        on_path = [c for c in ed if every_time(c)]
+        ctx.check(bool(on_path), 'C04.use/%s/calls-eval_dependencies' % item, 'T-MUSTCALL', b.name, 'eval_dependencies is not applied to the dependency map on every success path', b.site())
+        _errflow_calls(ctx, 'C04.use/%s/error' % item, b, on_path or ed, 'eval_dependencies')
+        # variables without a value must still be missing when the dependencies are evaluated: a default filled in earlier would
+        # hide cyclic / unsatisfiable dependencies and feed placeholders into chains.  So whatever is written into a
+        # HashMap<u64, f64> on the way to eval_dependencies is a value the instance has fixed (substituted_value), never a
+        # default derived from the bound.
+        if on_path or ed:
+            e0 = (on_path or ed)[0]
+            early = []
+            for c in b.calls:
+                if 'u64, f64>' not in c.name or c.item not in STATE_WRITES: continue
+                if b.dominates(e0.bb, c.bb) or e0.bb not in b.reach([c.bb]): continue
+                k = STATE_WRITES[c.item]
+                if k < 0: k = len(c.args) - 1
+                s = ctx.S.slice_operand(b, c.args[k]) if k < len(c.args) else None
+                if s is None or not s.has_field('v1::DecisionVariable', 'substituted_value') or s.has_field('v1::DecisionVariable', 'bound') or s.has_call(r'nearest_to_zero|Default>::default'):
+                    early.append(b.site(c.bb))
             ctx.check(not early, 'C04.use/%s/no-defaults-before-dependencies' % item, 'T-MUSTCALL', b.name,
-                      'omitted variables are filled with default values before eval_dependencies runs (%s)' % early, b.site(ed[0].bb))
+                      'omitted variables are filled with default values before eval_dependencies runs (%s)' % early, b.site(e0.bb))
 
 
 def check(ctx):
     instance_rules(ctx); function_rules(ctx); deps_rules(ctx); use_rules(ctx)
-    ctx.floor('C04.instance', 30); ctx.floor('C04.function', 14); ctx.floor('C04.deps', 12); ctx.floor('C04.use', 6)
+    ctx.floor('C04.instance', 35); ctx.floor('C04.function', 16); ctx.floor('C04.deps', 13); ctx.floor('C04.use', 6)
